@@ -130,12 +130,15 @@ template <typename L> static inline void mk_dslices(L& sl, const int* kinds, con
     else sl.push_back(d_slice_t{d_inner_t{Ellipsis}});
   }
 }
-#define DYN(DIM) \
-KERNEL size_t K(k_dynshape##DIM)(const size_t* shape, const int* kinds, const int* p, size_t ns, size_t* out){ \
-  auto sh = mk_arr<size_t,DIM>(shape); nmtools_list<d_slice_t> sl; mk_dslices(sl,kinds,p,ns); \
+#define DYN(DIM, SFX, LIST) \
+KERNEL size_t K(k_dynshape##DIM##SFX)(const size_t* shape, const int* kinds, const int* p, size_t ns, size_t* out){ \
+  auto sh = mk_arr<size_t,DIM>(shape); LIST sl; mk_dslices(sl,kinds,p,ns); \
   auto r = ix::shape_dynamic_slice(sh, sl); return put(r,out); } \
-KERNEL size_t K(k_dynindex##DIM)(const size_t* shape, const int* kinds, const int* p, size_t ns, const size_t* idx, size_t nidx, size_t* out){ \
-  auto sh = mk_arr<size_t,DIM>(shape); nmtools_list<d_slice_t> sl; mk_dslices(sl,kinds,p,ns); \
+KERNEL size_t K(k_dynindex##DIM##SFX)(const size_t* shape, const int* kinds, const int* p, size_t ns, const size_t* idx, size_t nidx, size_t* out){ \
+  auto sh = mk_arr<size_t,DIM>(shape); LIST sl; mk_dslices(sl,kinds,p,ns); \
   auto r = ix::dynamic_slice(mk_sv<size_t,4>(idx,nidx), sh, sl); return put(r,out); }
-DYN(2)
-DYN(3)
+using d_sv_t = utl::static_vector<d_slice_t,4>;
+DYN(2,,nmtools_list<d_slice_t>)
+DYN(3,,nmtools_list<d_slice_t>)
+DYN(2,_sv,d_sv_t)
+DYN(3,_sv,d_sv_t)
